@@ -40,7 +40,7 @@ def cases(draw):
     pool = {"mixed": STATES, "mostly-cur": ["cur"] * 6 + STATES, "all-cur": ["cur"]}[style]
     states = [draw(st.sampled_from(pool)) for _ in range(n)]
     dups = draw(st.lists(st.tuples(st.integers(0, n - 1), st.integers(0, servers - 1), st.sampled_from(["cur", "cur", "old", "comp", "newer"])).map(list), max_size=2))
-    return {"fmt": draw(st.sampled_from(["sdmf", "mdmf"])), "k": k, "n": n, "servers": servers, "states": states, "dups": dups,
+    return {"threads": draw(st.sampled_from(["sync", "async"])), "fmt": draw(st.sampled_from(["sdmf", "mdmf"])), "k": k, "n": n, "servers": servers, "states": states, "dups": dups,
             "verify": draw(st.booleans()), "force": draw(st.booleans()), "sched": draw(st.lists(st.integers(0, 9), max_size=30))}
 
 
@@ -54,6 +54,8 @@ def verkey(raw):
 
 
 def run_case(case, ctx):
+    from vf import boot as _boot
+    _boot.set_thread_mode(case.get("threads") == "async")      # defer_to_thread answered in a later reactor turn (as in production) or synchronously
     from allmydata.monitor import Monitor
     from allmydata.mutable.repairer import MustForceRepairError
     from allmydata import uri
